@@ -494,6 +494,18 @@ def shard(i, n, tier, seed, rec, hb):
             hb.beat()
             validate_case(rec, pvl, [p for p, _, _ in pick], [f for _, f, _ in pick],
                           [k for _, _, k in pick])
+        # many files per invocation (around the tens: a report is a table with
+        # one row per file, whatever their number)
+        sizes = (9, 10, 11, 12, 19, 20, 21, 30, 31, 40, 50, 51)
+        for size in (sizes[(2 * i) % len(sizes)], sizes[(2 * i + 1) % len(sizes)]):
+            if not files:
+                break
+            pick = [files[(j * 7 + i) % len(files)] for j in range(size)]
+            hb.beat()
+            rec.count("validate_runs[ten-or-more-files]" if size >= 10
+                      else "validate_runs[nine-files]")
+            validate_case(rec, pvl, [p for p, _, _ in pick], [f for _, f, _ in pick],
+                          [k for _, _, k in pick])
     finally:
         shutil.rmtree(tmp, ignore_errors=True)
 
@@ -501,6 +513,7 @@ def shard(i, n, tier, seed, rec, hb):
 def finish_kwargs(rec, tier):
     req = ["translate_outputs_identical", "translate_outfile_runs",
            "translate_stdin_runs", "validate_runs[single]", "validate_runs[many]",
+           "validate_runs[ten-or-more-files]",
            "validate_cells_compared", "subprocess_runs[pvl_translate]",
            "subprocess_runs[pvl_validate]", "files[corpus]", "files[damaged]",
            "files[missing-values]", "files[trailing-binary]", "files[non-ascii]",
